@@ -1,13 +1,19 @@
 (* C01 -- parsing and validation are total; one result per id.  Statements only.
-   PARTIAL (see DESIGN.md): proved here are the validation half, the id/key bookkeeping, the soundness of every
-   position the model builds, and -- for the regenerated lexer table, LR tables and action table -- that the
-   table-driven parser never panics: no action is ever applied to a value of the wrong shape, no Position::new
-   is asked for an offset that is not a character boundary, no u32 parse or javadoc slice fails, error recovery
-   always finds the `!` shift it was promised and never meets a token at EOF.  What remains unproved is that the
-   loops' fuel suffices (termination of the LR automaton); a case where the model runs out of fuel is a
-   correspondence failure of corr_parse, so it cannot go unnoticed. *)
+   Proved, for every source text (with the line/column table the harness supplies: one entry per character and one for the
+   end), for the regenerated lexer table, LR tables and action table:
+   - add_content always stores a result (C01_parse_total): no action is ever applied to a value of the wrong shape, no
+     Position::new is asked for an offset that is not a character boundary, no u32 parse or javadoc slice fails, error
+     recovery always finds the `!` shift it was promised and never meets a token at EOF (the typed-stack invariant), AND
+     every loop of the driver ends with fuel to spare (C01_loops_terminate: runs of reductions are at most chain_bound
+     long, a finite check over the regenerated tables; recovery's `accepts` simulation keeps its promise; every dropped
+     token shortens the text);
+   - every stored tree is grammar-shaped, validation of grammar-shaped trees returns, so validate over any set of held
+     files returns one result per file with that file's id (C01_total).
+   Modelled rather than proved: the hand-written Gallina model of lexer/driver/actions/validation is tied to the code by the
+   correspondence run on every check; the regex engine and the line-col crate are modelled (DESIGN I.6); native stack depth
+   and running time are observed by the harness. *)
 From AidlV Require Import Spec.Master Proofs.Master Proofs.Totality Proofs.ParserState Model.ParserState Model.LrDriver
-  Proofs.Typing Proofs.DriverSafe Proofs.ArityOk Proofs.LexProgress.
+  Proofs.Typing Proofs.DriverSafe Proofs.ArityOk Proofs.LexProgress Proofs.Termination Proofs.EndToEnd.
 
 (* validation of grammar-shaped trees cannot panic (index [0], unreachable!, unwrap on None) *)
 Theorem C01_validation_total : forall defined a ds0,
@@ -86,6 +92,39 @@ Example C01_ex_failed :
   exists d, add_content cx (lit "f") = Added (FR (lit "f") None [d]).
 Proof. vm_compute. eexists. reflexivity. Qed.
 
-(* the full statement, kept visible *)
-Definition C01_full : Prop :=
-  forall cx id, exists fr, add_content cx id = Added fr.
+(* the loops of the parser never exhaust the fuel the model gives them -- for ANY context, no hypothesis *)
+Theorem C01_loops_terminate : forall cx, snd (parse cx) <> OutOfFuel.
+Proof. exact parse_terminates. Qed.
+Print Assumptions C01_loops_terminate.
+
+(* ... nor do the two inner loops whose fuel would run out silently *)
+Theorem C01_inner_loops_fuel_immaterial : forall cx la p states col F, bounded (ps_states p) -> bounded states -> (chain_bound < F)%nat ->
+  error_reductions cx F p la = error_reductions cx reduce_fuel p la /\ accepts F states col = accepts accept_fuel states col.
+Proof. intros cx la p states col F H1 H2 HF. split; [apply error_reductions_never_out_of_fuel; assumption|apply accepts_never_out_of_fuel; assumption]. Qed.
+Print Assumptions C01_inner_loops_fuel_immaterial.
+
+(* the parser stage in full: every text gets a stored result *)
+Theorem C01_parse_total : forall cx id,
+  length (cx_lc cx) = S (length (cx_src cx)) -> exists fr, add_content cx id = Added fr /\ fr_id fr = id.
+Proof. exact every_text_is_held. Qed.
+Print Assumptions C01_parse_total.
+
+(* parsing and validation together: whatever texts were added, validate returns one result per held file, tagged with its id *)
+Theorem C01_total : forall files, Forall held files ->
+  exists r, validate files = Ok r /\ map fr_id r = map fr_id files.
+Proof. exact validate_total. Qed.
+Print Assumptions C01_total.
+
+(* non-vacuity: two held files, one of them unparsable *)
+Example C01_ex_total :
+  let s1 := lit "package p; interface I { void f(in int x); }" in
+  let s2 := lit "interface {" in
+  exists f1 f2, add_content (Ctx s1 (flat_lc s1)) (lit "a") = Added f1 /\ add_content (Ctx s2 (flat_lc s2)) (lit "b") = Added f2 /\
+                Forall held [f1; f2].
+Proof.
+  vm_compute add_content. do 2 eexists. split; [reflexivity|split; [reflexivity|]].
+  constructor; [|constructor; [|constructor]].
+  - exists (Ctx (lit "package p; interface I { void f(in int x); }") (flat_lc (lit "package p; interface I { void f(in int x); }"))).
+    split; [reflexivity|]. vm_compute. reflexivity.
+  - exists (Ctx (lit "interface {") (flat_lc (lit "interface {"))). split; [reflexivity|]. vm_compute. reflexivity.
+Qed.
